@@ -23,6 +23,9 @@ pub enum Entry {
     /// IdentifyDistinct branch of TextDiffConfig::diff): `n` + 100 and `m` + 100 pairwise
     /// different tokens, clock already expired (`m` even: deadline, odd: timeout)
     TextConfigBig,
+    /// capture_diff_slices_deadline with a clock that never expires on `n` different items, `m`
+    /// common items, `n` different items per side (all else different): must equal no deadline
+    NeverExpiresLong,
 }
 impl Entry {
     fn name(&self) -> &'static str {
@@ -35,6 +38,7 @@ impl Entry {
             Entry::TextConfigDeadline => "TextDiffConfig::deadline",
             Entry::TextConfigTimeout => "TextDiffConfig::timeout",
             Entry::TextConfigBig => "TextDiffConfig::deadline/timeout (>100 tokens)",
+            Entry::NeverExpiresLong => "capture_diff_slices_deadline (never expires, long barren stretches)",
         }
     }
     fn from(s: &str) -> Entry {
@@ -46,6 +50,7 @@ impl Entry {
             "TextDiffConfig::deadline" => Entry::TextConfigDeadline,
             "TextDiffConfig::timeout" => Entry::TextConfigTimeout,
             "TextDiffConfig::deadline/timeout (>100 tokens)" => Entry::TextConfigBig,
+            "capture_diff_slices_deadline (never expires, long barren stretches)" => Entry::NeverExpiresLong,
             _ => Entry::CaptureSlicesDeadline,
         }
     }
@@ -53,7 +58,7 @@ impl Entry {
         matches!(self, Entry::AlgDiffDeadline | Entry::ModuleDeadline | Entry::SlicesDeadline)
     }
     fn slices_only(&self) -> bool {
-        matches!(self, Entry::SlicesDeadline | Entry::CaptureSlicesDeadline | Entry::TextConfigDeadline | Entry::TextConfigTimeout | Entry::TextConfigBig)
+        matches!(self, Entry::SlicesDeadline | Entry::CaptureSlicesDeadline | Entry::TextConfigDeadline | Entry::TextConfigTimeout | Entry::TextConfigBig | Entry::NeverExpiresLong)
     }
 }
 
@@ -98,7 +103,7 @@ fn run_entry(s: &Shape, inp: &Inputs, dl: Option<std::time::Instant>) -> Obs {
             (Seq::Slice(o), Seq::Slice(n)) => Obs::Ops(capture_diff_slices_deadline(s.alg, &o[..], &n[..], dl)),
             _ => unreachable!(),
         },
-        Entry::TextConfigBig => unreachable!("handled by run_big"),
+        Entry::TextConfigBig | Entry::NeverExpiresLong => unreachable!("handled separately"),
         Entry::TextConfigDeadline | Entry::TextConfigTimeout => match (&inp.old, &inp.new) {
             (Seq::Slice(o), Seq::Slice(n)) => {
                 use crate::symtxt::SymTxt;
@@ -217,6 +222,9 @@ impl Prop for C07 {
             for (n, m) in [(1usize, 2usize), (1, 3), (3, 0), (0, 1)] {
                 v.push(Shape { alg, n, m, layout: Layout::Slice { pre_o: 0, post_o: 0, pre_n: 0, post_n: 0 }, entry: Entry::TextConfigBig });
             }
+            for (n, m) in [(9usize, 1usize), (20, 3), (40, 2)] {
+                v.push(Shape { alg, n, m, layout: Layout::Slice { pre_o: 0, post_o: 0, pre_n: 0, post_n: 0 }, entry: Entry::NeverExpiresLong });
+            }
             for n in 0..=max {
                 for m in 0..=max {
                     for layout in [
@@ -244,6 +252,36 @@ impl Prop for C07 {
         reset_hooks();
         if s.entry == Entry::TextConfigBig {
             return self.run_big(s);
+        }
+        if s.entry == Entry::NeverExpiresLong {
+            use crate::sym::Sym;
+            let (k, c) = (s.n, s.m);
+            let (o1, o2, n1, n2, common) = (Sym::fresh_vec(k), Sym::fresh_vec(k), Sym::fresh_vec(k), Sym::fresh_vec(k), Sym::fresh_vec(c));
+            let all: Vec<u32> = o1.iter().chain(&o2).chain(&n1).chain(&n2).chain(&common).map(|x| x.0).collect();
+            engine::assume(&crate::engine::F::Distinct(all.clone()));
+            for id in &all {
+                engine::set_hash_class(*id, *id as u64);
+            }
+            let old: Vec<Sym> = o1.iter().chain(&common).chain(&o2).copied().collect();
+            let new: Vec<Sym> = n1.iter().chain(&common).chain(&n2).copied().collect();
+            let probes = std::rc::Rc::new(std::cell::Cell::new(0u32));
+            let p2 = probes.clone();
+            similar::verif_clock::install(Some(Box::new(move |_| {
+                p2.set(p2.get() + 1);
+                false
+            })));
+            let with = capture_diff_slices_deadline(s.alg, &old, &new, any_instant());
+            similar::verif_clock::install(None);
+            let without = similar::capture_diff_slices(s.alg, &old, &new);
+            engine::witness("paths_with_long_barren_stretches");
+            engine::witness("paths_where_the_deadline_never_fired");
+            claim!(
+                with == without,
+                "a deadline that never expires gives {:?} but no deadline gives {:?} ({} different + {} common + {} different items per side)",
+                with, without, k, c, k
+            );
+            claim!(probes.get() >= 1, "the deadline never reached a deadline check");
+            return format!("{:?}", with);
         }
         let inp = make_inputs(s.n, s.m, s.layout);
         let clock = install_clock();
@@ -354,7 +392,7 @@ impl Prop for C07 {
                 "similar::{capture_diff_deadline, capture_diff_slices_deadline} (+ Compact, Replace, Capture)",
                 "similar::TextDiffConfig::{deadline, timeout, diff_slices, diff}, Deadline::into_instant, deadline_support::duration_to_deadline",
             ],
-            bounds: format!("3 algorithms x n,m in 0..={} x 3 layouts x 7 entry points (incl. TextDiffConfig::deadline and ::timeout over one-character SymTxt tokens), plus TextDiffConfig::deadline / ::timeout above the 100-token threshold (100..103 pairwise different tokens per side, clock already expired); the clock is symbolic: one z3 Bool per deadline probe with a latch, so 'expired before the start', 'at probe k' for every reachable k, and 'never' are all explored; work bound after expiry: raw {}*(N+M)+{}, captured {}*(N+M)+{} comparisons (constants.json)", match tier { Tier::Quick => 4, Tier::Thorough => 5 }, konst("c07_raw_after_expiry_per_item"), konst("c07_raw_after_expiry_const"), konst("c07_captured_after_expiry_per_item"), konst("c07_captured_after_expiry_const")),
+            bounds: format!("3 algorithms x n,m in 0..={} x 3 layouts x 7 entry points (incl. TextDiffConfig::deadline and ::timeout over one-character SymTxt tokens), plus a never-expiring clock on inputs with long stretches without any match (9+1+9, 20+3+20, 40+2+40 items per side) compared with no deadline; plus TextDiffConfig::deadline / ::timeout above the 100-token threshold (100..103 pairwise different tokens per side, clock already expired); the clock is symbolic: one z3 Bool per deadline probe with a latch, so 'expired before the start', 'at probe k' for every reachable k, and 'never' are all explored; work bound after expiry: raw {}*(N+M)+{}, captured {}*(N+M)+{} comparisons (constants.json)", match tier { Tier::Quick => 4, Tier::Thorough => 5 }, konst("c07_raw_after_expiry_per_item"), konst("c07_raw_after_expiry_const"), konst("c07_captured_after_expiry_per_item"), konst("c07_captured_after_expiry_const")),
             outside: "wall-clock behaviour of Instant::now itself; lengths beyond the bound (so the 'small constant multiple' is only bounded on small inputs)".into(),
             assumptions: vec![
                 "H1 (cfg similar_verif): deadline_exceeded consults the installed oracle instead of Instant::now() when a deadline is present".into(),
@@ -366,6 +404,7 @@ impl Prop for C07 {
                 "paths_where_the_deadline_never_fired",
                 "paths_with_disjoint_inputs",
                 "paths_above_the_token_threshold",
+                "paths_with_long_barren_stretches",
             ],
             rule: "one state = one explored path = one equality pattern x one expiry point; one transition = one solver-decided comparison or clock probe".into(),
         }
